@@ -21,6 +21,9 @@ type Dog implements Pet { name: String }
 union U = Cat | Dog
 scalar Sc
 directive @dd on FIELD_DEFINITION
+directive @oo on OBJECT | INTERFACE | UNION | ENUM
+extend type Cat @oo
+extend interface Pet @oo
 type Query { pet: Pet u: U pets: [Pet] item: Sc v: Int @dd echo(x: Sc): Sc }
 type Subscription { s: Int }
 """
@@ -59,6 +62,10 @@ def _register(i, SN):
         async def on_field_execution(self, directive_args, next_resolver, parent, args, ctx, info):
             return (await next_resolver(parent, args, ctx, info)) + 100 * i
     Directive("dd", **SN)(DD())
+
+    class OO:
+        pass
+    Directive("oo", **SN)(OO())       # carried by extensions only: every schema name is cooked from the very same SDL text
 
     async def pet(parent, args, ctx, info):
         return lying
